@@ -36,3 +36,7 @@ fn c04q_unclosed_bracket_is_literal() {
         None => assert!(false),
     }
 }
+
+// native replay of a Kani counterexample (bin/vcheck replay): the generated test is included here
+#[cfg(verif_playback)]
+include!("/verif/work/k/playback/fnmatch_parse_harness.rs");
